@@ -18,7 +18,7 @@ from vlib import designs as D, observe as O, ref, gen, spec as S
 
 ID = "C25"
 RULE = ("cases = generated Nest specs (K11): 'flat' nests and 'assoc' pairs (same three blocks nested right and "
-        "left). non-trivial = constructed, no preamble, both parts R-decidable, sampler exhausted (<= CAP) and every "
+        "left); 'nest_dx': the outer block crosses a within-trial derived factor over uncrossed sources. non-trivial = constructed, no preamble, both parts R-decidable, sampler exhausted (<= CAP) and every "
         "sequence judged; distinct = spec hashes")
 ASSUMPTIONS = ["validity of the outer and inner block *alone* is decided by the reference model on that sub-block"]
 MINIMUMS = {"quick": {"sequences_judged": 2500, "designs_judged": 45, "product_sets_compared": 15, "assoc_pairs_compared": 6},
